@@ -686,7 +686,8 @@ class Engine:
         world.steps_done += 1
         fn = getattr(self, "_do_" + k, None)
         if fn is None:
-            return "skipped:unknown-op", []
+            from .core import HarnessError
+            raise HarnessError("engine %s has no interpreter for operation %r" % (NAME, k))
         vs = []
         hid = op.get("h")
         if hid is not None and hid not in world.handles:
